@@ -690,3 +690,68 @@ func ruleNullSource(c *Ctx, id string) {
 		}
 	}
 }
+
+// dirMutators: the functions of package dir with an ok result that reach
+// Inode.Write (AddName, RemName, AddNameDir, RemNameDir, InitDir, MkRootDir).
+func dirMutators(c *Ctx) []*ssa.Function {
+	V, P := c.V, c.P
+	var muts []*ssa.Function
+	for _, f := range P.RepoFuncs("dir") {
+		if f.Parent() != nil || f.Signature.Recv() != nil || f.Blocks == nil {
+			continue
+		}
+		res := f.Signature.Results()
+		if res.Len() == 0 {
+			continue
+		}
+		if b, ok := res.At(res.Len() - 1).Type().Underlying().(*types.Basic); !ok || b.Kind() != types.Bool {
+			continue
+		}
+		if P.Reach([]*ssa.Function{f}, func(g *ssa.Function) bool { return !IsRepoFunc(g) })[V.InodeWrite] {
+			muts = append(muts, f)
+		}
+	}
+	sort.Slice(muts, func(i, j int) bool { return FuncName(muts[i]) < FuncName(muts[j]) })
+	return muts
+}
+
+// ruleDoneMeansWritten: the other direction of ruleOkResults.  "ok" from a
+// function that changes a directory means the directory block was written in
+// this transaction.  A shortcut that answers ok because the name cache already
+// says so ("idempotent add") trusts the cache over the disk: the name cache of
+// a cached inode survives the inode's death and rebirth, so the "." and ".."
+// of a recycled directory are never written - the running server sees them, a
+// restarted one does not.
+func ruleDoneMeansWritten(c *Ctx, id string) {
+	V, P, R := c.V, c.P, c.R
+	R.Rule(id, "a directory update reported done was written: in every function of package dir that writes a directory, each way of answering ok other than the constant false follows, on every path, a call of Inode.Write or of another such function", 6)
+	muts := dirMutators(c)
+	isW := map[*ssa.Function]bool{V.InodeWrite: true}
+	for _, m := range muts {
+		isW[m] = true
+	}
+	for _, m := range muts {
+		R.Analysed[FuncName(m)] = true
+		idx := m.Signature.Results().Len() - 1
+		pre := MustBefore(m, func(in ssa.Instruction) bool {
+			cal := staticCallee(in)
+			return cal != nil && cal != m && isW[cal]
+		})
+		ok, n, where := true, 0, m.Pos()
+		for _, rs := range returnSources(m, idx) {
+			if bv, isb := constBool(stripConv(rs.Val)); isb && !bv {
+				continue
+			}
+			n++
+			at := ssa.Instruction(rs.Ret)
+			if rs.From != rs.To {
+				at = rs.From.Instrs[len(rs.From.Instrs)-1]
+			}
+			if !pre(at) {
+				ok, where = false, rs.Ret.Pos()
+			}
+		}
+		R.Check(ok && n > 0, id, FuncName(m)+"|ok only after the directory write", P.Pos(where), "every answer that can be true follows the write of the directory (or the call of the function that does it)", fmt.Sprintf("%d answers", n), "the function can answer ok without having written the directory in this transaction (a shortcut through the name cache): cache and disk disagree, the entry is missing after a restart")
+	}
+	R.Check(len(muts) >= 4, id, "inventory|directory-writing functions", "?", "the functions of package dir that write a directory are found", fmt.Sprintf("%d functions", len(muts)), "fewer directory-writing functions than AddName/RemName/AddNameDir/RemNameDir")
+}
